@@ -106,6 +106,16 @@ func c08Scenarios(tier string) []*Scenario {
 			out = append(out, sc)
 		}
 	}
+	// unary over HTTP with an application-supplied error renderer that leaves the HTTP status at 200: a handler
+	// without a response, or with a failure, is still reported as an error
+	for _, rd := range []string{"renderer:noop", "renderer:hdr"} {
+		for _, h := range [][]string{{"dec", "ret:nil"}, {"dec", "ret:ok"}, {"dec", "ret:st:5"}, {"dec", "h:a", "t:b", "ret:nil"}, {"dec", "ret:okerr"}} {
+			add("http", "", RPC{Kind: "unary", Client: []string{"I"}, Handler: h})
+			sc := out[len(out)-1]
+			sc.Opts = rd
+			sc.Name += "|" + rd
+		}
+	}
 	// HTTP: single-request methods (server-streaming) given 0, 1, 2 request frames
 	for _, c := range [][]string{{"C", "R*"}, {"S0", "C", "R*"}, {"S0", "S1", "C", "R*"}, {"S0", "E1", "C", "R*"}, {"E0", "C", "R*"}, {"E0", "E1", "C", "R*"}} {
 		add("http", "", RPC{Kind: "ss", Client: c, Handler: []string{"r", "r", "s0", "ret:ok"}})
